@@ -8,7 +8,11 @@ import z3
 from lib import common
 from xh.runner import Cond, run_conditions
 
-PLACEMENTS = ("expr4", "exprtab", "expr_mixed", "block_if", "block_for", "block_include", "filter", "first_line")
+PLACEMENTS = ("expr4", "exprtab", "expr_mixed", "block_if", "block_for", "block_include", "filter", "first_line", "mid_expr", "mid_include", "mid_after_tag")
+
+
+ORDINARY = ("expr", "if", "for", "set_macro", "call", "filter_block", "indent", "indent_block", "strings", "include", "ws_control", "comment_raw", "join_default",
+            "lineprefix_plain")
 
 
 def marker_lemma(rep: common.Report) -> None:
@@ -58,16 +62,20 @@ def main(tier: str) -> int:
     n = "3" if tier == "quick" else "4"
     T = 400 if tier == "quick" else 2400
     conds = [Cond(M, "marker_prefixes_every_nonempty_line", T, 120, dict(C19_T=p, C19_LEN=n)) for p in PLACEMENTS]
+    for o in ORDINARY:
+        conds.append(Cond(M, "ordinary_template_renders_as_upstream", T, 120, dict(C19_ORD=o, C19_LEN=("2" if tier == "quick" else "3"))))
     conds.append(Cond(M, "assert_tag_is_a_conditional", T, 60))
     conds.append(Cond(M, "use_query_tags_are_conditionals", T, 60))
     run_conditions(rep, conds)
     marker_lemma(rep)
-    rep.bounds = dict(indented_text=f"<= {n} characters over {{a, space, LF, CR}}", placements=list(PLACEMENTS), assert_values="-2..3 (truthiness and a comparison)",
+    rep.bounds = dict(ordinary_templates=list(ORDINARY), ordinary_context="x: <= 2 (thorough 3) chars over {a,space,LF,CR}; n: 0..3; flag: bool", indented_text=f"<= {n} characters over {{a, space, LF, CR}}", placements=list(PLACEMENTS), assert_values="-2..3 (truthiness and a comparison)",
                       use_queries="all 8 valuations of three queries, ifuses/elifuses/elifnuses/else and the negated form")
     rep.assumptions = ["marker placements are a fixed list (expression, tab/space/mixed prefixes, if, for, include, filter chain, first line)",
                        "lines as str.splitlines defines them: the prefix filter normalises terminators by design"]
-    rep.not_covered = ["SENTENCE 1 (bundled engine renders every ordinary template as upstream Jinja2 does): outside reach -- two complete template engines cannot be "
-                       "encoded, and the only installed upstream (3.1.x) differs from the 2.11 base in ways unrelated to Nunavut; only the marker lemma is decided",
+    rep.not_covered = ["SENTENCE 1 in general (every template of the common language): outside reach -- two complete template engines cannot be encoded. Decided "
+                       "instead: a FIXED LIST of 14 ordinary templates (expressions, if/for/set/macro/call/filter blocks, include, whitespace control, comments, "
+                       "raw, the stock string filters) renders identically in the bundled engine and in the installed upstream Jinja2 3.1.x for every context "
+                       "value within the bound; plus the marker-alternative lemma",
                        "texts longer than the bound; other marker placements"]
     rep.extra["explanation"] = ("CrossHair/z3 through the real bundled engine with symbolic context values: marker render == plain value with each non-empty line "
                                 "prefixed; assert raises iff falsy; ifuses/ifnuses chains render exactly as the corresponding if/elif/else; plus one z3 regex lemma")
